@@ -23,10 +23,12 @@ REQUIRED_PROBES = {"quick": ("commack_refused", "attempt_unanswered", "inbound_s
                                 "message_while_not_communicating", "stale_s1f14", "s1f14_near_t3")}
 EVIDENCE = {
     "level": "exploration",
-    "rule": ("seeded histories over {enable, disable, link selected, link lost, inbound S1F13, S1F14 with COMMACK 0/1 "
-             "and current/stale/unknown system bytes, other primaries, waits around T3 and the establish delay}, host "
-             "and equipment roles, T3 in {1,3}, delay in {1,4}; non-trivial = the history contains a refused or "
-             "unanswered attempt, a link loss or a disable; distinct = distinct (role, op sequence, T3, delay, scheduler)"),
+    "rule": ("seeded histories over {enable, disable, link selected, link lost, inbound S1F13, S1F14 with COMMACK "
+             "0/1 and current/stale/unknown system bytes, other primaries, waits around T3 and the establish "
+             "delay}, host and equipment roles, T3 in {1,3}, delay in {1,4} or set to 10/11 s through S2F15 (ECID "
+             "1), S1F14 and link loss injected together, HSMS and (a quarter of the runs) SECS-I transport; "
+             "non-trivial = the history contains a refused or unanswered attempt, a link loss or a disable; "
+             "distinct = distinct (role, op sequence, T3, delay, scheduler)"),
     "real": ["secsgem.gem.GemHandler/GemHostHandler/GemEquipmentHandler", "secsgem.gem.CommunicationStateMachine (real "
              "threading.Timer objects on the virtual clock)", "secsgem.secs.SecsHandler", "secsgem.hsms.HsmsProtocol",
              "secsgem.common.Tcp*Connection"],
